@@ -30,6 +30,7 @@ from ..world import obj
 from pybrops.popgen.gmat.DensePhasedGenotypeMatrix import DensePhasedGenotypeMatrix
 from pybrops.popgen.gmap.StandardGeneticMap import StandardGeneticMap
 from pybrops.popgen.gmap.HaldaneMapFunction import HaldaneMapFunction
+from pybrops.popgen.gmap.KosambiMapFunction import KosambiMapFunction
 from pybrops.breed.prot.mate import util as putil
 from pybrops.core.util import mate as cutil
 from pybrops.breed.prot.mate.SelfCross import SelfCross
@@ -59,6 +60,9 @@ PROT = {"self": (SelfCross, 1, False), "2w": (TwoWayCross, 2, False), "2wdh": (T
 LOW = {"mat_meiosis": putil.mat_meiosis, "dense_meiosis": cutil.dense_meiosis, "mat_dh": putil.mat_dh, "dense_dh": cutil.dense_dh}
 
 
+MAPFN = {"haldane": HaldaneMapFunction, "kosambi": KosambiMapFunction}
+
+
 def generate(R, tier):
     r = R.random()
     kind = "strat-low" if r < 0.40 else ("strat-prot" if r < 0.78 else ("strat-chain" if r < 0.9 else ("real-map" if r < 0.96 else "real-self")))
@@ -77,10 +81,18 @@ def generate(R, tier):
         sc.update(fn=R.choice(["mat_meiosis", "dense_meiosis"]), N=200000, xosrc="map")
     else:
         sc.update(prot=R.choice(["2w", "2wdh", "self", "4w"]), N=40000, nself=R.choice([1, 2]), xosrc="map")
+    if sc["xosrc"] == "map":
+        sc["mapfn"] = R.choice(["haldane", "haldane", "kosambi"])
+        # history: the matrix may have been mapped before, onto another map and/or with another map function
+        sc["remap"] = None if R.random() < 0.6 else {"factor": R.choice([0.25, 0.5, 2.0, 3.0]), "mapfn": R.choice(["haldane", "kosambi"])}
     return sc
 
 
 def shrink(sc):
+    if sc.get("remap"):
+        c = copy.deepcopy(sc)
+        c["remap"] = None
+        yield c
     if sc["m"] > sc["nchr"]:
         c = copy.deepcopy(sc)
         c["m"] -= 1
@@ -134,10 +146,31 @@ def _parents(sc, chrgrp, phypos, genpos, xo, ntaxa, hetero):
         gmap = StandardGeneticMap(vrnt_chrgrp=chrgrp, vrnt_phypos=phypos, vrnt_genpos=genpos)
         # a chromosome needs two map points for a spline; pad single-marker chromosomes
         try:
-            pg.interp_xoprob(gmap, HaldaneMapFunction())
+            rm = sc.get("remap")
+            if rm:
+                old = StandardGeneticMap(vrnt_chrgrp=chrgrp, vrnt_phypos=phypos, vrnt_genpos=genpos * rm["factor"])
+                pg.interp_xoprob(old, MAPFN[rm["mapfn"]]())
+            pg.interp_xoprob(gmap, MAPFN[sc.get("mapfn", "haldane")]())
         except Exception:
             return None
     return pg
+
+
+def _xo_ref(sc, pg, chrgrp, genpos):
+    """Crossover probabilities the gametes are judged against: the vector handed to the
+    matrix, or - when it was assigned from a genetic map - one half at every chromosome
+    start and the map function of the distance to the previous marker on the map applied
+    last, computed here."""
+    if sc["xosrc"] != "map":
+        return numpy.asarray(pg.vrnt_xoprob, dtype=float)
+    out = numpy.empty(len(genpos))
+    for j in range(len(genpos)):
+        if j == 0 or chrgrp[j] != chrgrp[j - 1]:
+            out[j] = 0.5
+        else:
+            d = float(genpos[j] - genpos[j - 1])
+            out[j] = 0.5 * (1.0 - math.exp(-2.0 * d)) if sc.get("mapfn", "haldane") == "haldane" else 0.5 * math.tanh(2.0 * d)
+    return out
 
 
 def _thr(p, N, sig=6.5):
@@ -179,6 +212,8 @@ def _check_gametes(sc, G, xo, chrgrp, genpos, V, C, exact, nsite):
     for i in range(m):
         for j in range(i + 2, m):
             if chrgrp[i] == chrgrp[j]:
+                if sc.get("mapfn", "haldane") != "haldane":
+                    continue                                   # the non-adjacent clause is stated for Haldane maps
                 d = abs(genpos[j] - genpos[i])
                 e = 0.5 * (1.0 - math.exp(-2.0 * d))
                 what = "haldane-non-adjacent"
@@ -227,7 +262,8 @@ def execute(sc):
         if strat and g.fired.get("uniform:stratified", 0) + g.fired.get("random:stratified", 0) != 1:
             probes["stratified_mode_not_applicable"] = 1
             return _out(sc, V, log, faults, probes, 0, g)
-        ncmp = _check_gametes(sc, G, xo_eff, numpy.asarray(pg.vrnt_chrgrp), numpy.asarray(pg.vrnt_genpos) if pg.vrnt_genpos is not None else genpos, V, C, strat, 0)
+        gp = genpos if sc["xosrc"] == "map" or pg.vrnt_genpos is None else numpy.asarray(pg.vrnt_genpos)
+        ncmp = _check_gametes(sc, G, _xo_ref(sc, pg, numpy.asarray(pg.vrnt_chrgrp), genpos), numpy.asarray(pg.vrnt_chrgrp), gp, V, C, strat, 0)
     elif kind == "strat-prot":
         cls, npar, isdh = PROT[sc["prot"]]
         C = cls.__name__ + ".mate"
@@ -267,7 +303,7 @@ def execute(sc):
         for G in cols:
             if G.shape != (N, len(xo_eff)):
                 continue
-            ncmp += _check_gametes(sc, G, xo_eff, numpy.asarray(pg.vrnt_chrgrp), genpos, V, C, True, 0)
+            ncmp += _check_gametes(sc, G, _xo_ref(sc, pg, numpy.asarray(pg.vrnt_chrgrp), genpos), numpy.asarray(pg.vrnt_chrgrp), genpos, V, C, True, 0)
             if V:
                 break
     elif kind == "strat-chain":
@@ -293,7 +329,7 @@ def execute(sc):
             return _out(sc, V, log, faults, probes, 0, g)
         for cp in (0, 1):
             G = numpy.isin(pm[cp], sorted(a1)).astype(int)
-            ncmp += _check_gametes(sc, G, xo_eff, numpy.asarray(pg.vrnt_chrgrp), genpos, V, C, True, 0)
+            ncmp += _check_gametes(sc, G, _xo_ref(sc, pg, numpy.asarray(pg.vrnt_chrgrp), genpos), numpy.asarray(pg.vrnt_chrgrp), genpos, V, C, True, 0)
             if V:
                 break
     else:
